@@ -39,12 +39,14 @@ def direct_scenarios(ctx, n):
                       order=rng.choice(["lifo", "random"]), stale=False)
         elif fam == 2:    # kinds
             kinds = [rng.choice(["r", "r", "c", "p", "p"]) for _ in range(nev)]
-            sc = dict(workers=rng.choice([1, 2]), count=rng.choice([1, 2, 3]), bytes=0, flush_ms=10, sizes=[1] * nev,
+            # children of a split carry no bytes of their own (processor.Spawn leaves Size at 0)
+            sc = dict(workers=rng.choice([1, 2]), count=rng.choice([1, 2, 3]), bytes=0, flush_ms=10, sizes=[0 if x == "c" else 1 for x in kinds],
                       order=rng.choice(["fifo", "random"]), stale=False)
         else:             # staleness: fewer events than the count limit, nothing else ever arrives
             nev = rng.randint(1, 4)
-            kinds = ["r"] * nev
-            sc = dict(workers=rng.choice([1, 2]), count=50, bytes=0, flush_ms=rng.choice([5, 30, 80]), sizes=[1] * nev, order="fifo", stale=True)
+            kinds = rng.choice([["r"] * nev, ["r"] * nev, ["c"] * nev, [rng.choice(["r", "c"]) for _ in range(nev)]])
+            sc = dict(workers=rng.choice([1, 2]), count=50, bytes=0, flush_ms=rng.choice([5, 30, 80]), sizes=[0 if x == "c" else 1 for x in kinds],
+                      order="fifo", stale=True)
         if sc["count"] == 0 and sc["bytes"] == 0:
             sc["count"] = 2
         sc.update(run=run, name="direct-%d-%d" % (fam, run), kinds=kinds, adders=rng.choice([1, 1, 2, 3]) if fam != 3 else 1, seed=ctx.seed * 7919 + k)
